@@ -28,6 +28,25 @@ var systemTables = []string{"local", "peers", "peers_v2", "schema_keyspaces", "s
 
 var nonIdempotentFuncs = []string{"uuid", "now"}
 
+// maxNestingDepth limits the nesting of terms (collections, tuples, casts, function arguments) and parenthesized
+// relations. The parser is recursive so an unlimited depth allows a (large) query to overflow the stack.
+const maxNestingDepth = 512
+
+var errNestingTooDeep = errors.New("query is nested too deeply")
+
+// enter increases the nesting depth returning an error if it's too deep; `leave()` must be called when it succeeds.
+func (l *lexer) enter() error {
+	if l.depth >= maxNestingDepth {
+		return errNestingTooDeep
+	}
+	l.depth++
+	return nil
+}
+
+func (l *lexer) leave() {
+	l.depth--
+}
+
 type ValueLookupFunc func(name string) (value message.Column, err error)
 
 func FilterValues(stmt *SelectStatement, columns []*message.ColumnMetadata, valueFunc ValueLookupFunc) (filtered []message.Column, err error) {
